@@ -216,7 +216,10 @@ func genExtras(r *rng.R, t *tb) []extra {
 		default: // a longer chain of links ending at a file
 			if len(files) > 0 {
 				tgt := r.Pick(files)
-				ln := 2 + r.Intn(6)
+				ln := 2 + r.Intn(3)
+				if r.Chance(1, 8) {
+					ln = 5 + r.Intn(3)
+				}
 				prev := tgt
 				for j := 0; j < ln; j++ {
 					q := fmt.Sprintf("%s/chain%d_%d", d, i, j)
@@ -242,7 +245,7 @@ func genExtras(r *rng.R, t *tb) []extra {
 			}
 		}
 	}
-	if r.Chance(1, 25) { // a symlink cycle
+	if r.Chance(1, 40) { // a symlink cycle
 		d := r.Pick(dirs)
 		if t.link(d+"/cyc1", "cyc2") && t.link(d+"/cyc2", "cyc1") {
 			out = append(out, extra{d + "/cyc1", "link"}, extra{d + "/cyc2", "link"})
@@ -301,11 +304,13 @@ func GenInput(r *rng.R, hostile bool) Input {
 	for i := range seenLine {
 		seenLine[i] = map[string]bool{}
 	}
+	owners := map[string][]int{}
 	record := func(i int, path, kind string) {
 		if seenLine[i][path] {
 			return
 		}
 		seenLine[i][path] = true
+		owners[path] = append(owners[path], i)
 		// ancestors first, most of the time
 		if r.Chance(4, 5) {
 			var anc []string
@@ -410,7 +415,16 @@ func GenInput(r *rng.R, hostile bool) Input {
 	in := Input{Pkgs: pkgs, NoVDB: r.Chance(3, 10), EmptyDev: !r.Chance(1, 7), NoBdeps: r.Chance(3, 10)}
 	if r.Chance(13, 20) {
 		in.UseFile = true
-		in.Script = common.Bs(genScript(r, t, extras, pkgs, in))
+		var likely []string
+		for _, e := range extras {
+			for _, o := range owners[e.path] {
+				if want[o] && e.kind != "fifo" && e.kind != "sock" {
+					likely = append(likely, e.path)
+					break
+				}
+			}
+		}
+		in.Script = common.Bs(genScript(r, t, extras, likely, pkgs, in))
 	}
 	in.Tree = t.list()
 	return in
@@ -470,7 +484,7 @@ func scriptable(n string) bool { // can be named literally on a line (no '*', se
 		!strings.Contains(n, "\\")
 }
 
-func genScript(r *rng.R, t *tb, extras []extra, pkgs []Pkg, in Input) []string {
+func genScript(r *rng.R, t *tb, extras []extra, likely []string, pkgs []Pkg, in Input) []string {
 	var out []string
 	var present, filesP, linksP, dirsP []string
 	for _, e := range extras {
@@ -502,6 +516,51 @@ func genScript(r *rng.R, t *tb, extras []extra, pkgs []Pkg, in Input) []string {
 	wildDirs := []string{"/usr/bin", "/usr/lib64", "/opt/app", "/etc/conf.d", "/etc/env.d", "/dev", "/dev/input", "/usr/local",
 		"/var/db/pkg/app-misc", "/etc", "/usr/share/doc/pkgA", "/bin", "/var", ""}
 	pats := []string{"*", "f*", "*o", "fo*", "b*", "*.so*", "tty*", "sd*", "c*", "*a*", "foo*", "a*b", "*.gone", "l*.so.1", "**", "x*y*"}
+	var members []string // names that are probably members of the list
+	for _, p := range likely {
+		if scriptable(p) {
+			members = append(members, p, p)
+		}
+	}
+	members = append(members, std...)
+	members = append(members, magic...)
+	if !in.EmptyDev {
+		members = append(members, dev...)
+		members = append(members, dev...)
+	}
+	if !in.NoVDB {
+		for _, p := range pkgs {
+			if p.Want {
+				members = append(members, p.Dir()+"/CONTENTS", p.Dir()+"/SLOT", p.Dir())
+			}
+		}
+	}
+	// a pattern that matches the given name
+	patFor := func(name string) string {
+		d, b := parentOf(name), name[strings.LastIndexByte(name, '/')+1:]
+		if d == "/" {
+			d = ""
+		}
+		if strings.ContainsAny(d, "*?[\\ \t'\"") || strings.ContainsAny(b, "?[\\ \t'\"") {
+			return d + "/*"
+		}
+		switch r.Intn(5) {
+		case 0:
+			return d + "/*"
+		case 1:
+			return d + "/" + b[:1+r.Intn(len(b))] + "*"
+		case 2:
+			return d + "/*" + b[r.Intn(len(b)):]
+		case 3:
+			k := r.Intn(len(b))
+			return d + "/" + b[:k] + "*" + b[k:]
+		default:
+			if len(b) >= 2 {
+				return d + "/" + b[:1] + "*" + b[len(b)-1:]
+			}
+			return d + "/" + b + "*"
+		}
+	}
 	n := 1 + r.Heavy(6)
 	for i := 0; i < n; i++ {
 		var l string
@@ -531,21 +590,22 @@ func genScript(r *rng.R, t *tb, extras []extra, pkgs []Pkg, in Input) []string {
 			l = "node " + r.Pick([]string{"/dev/tty7", "/dev/xyz", "/dev/input/ev9", "/dev/mapper/control", "/opt/nodes/n1", "/dev/null"}) +
 				" dev=" + r.Pick([]string{"c4:7", "b8:1", "c10:236", "c1:3"}) + r.Pick([]string{"", " mod=0600", " gid=5"})
 		case x < 21: // wildcard add
-			l = r.Pick([]string{"file", "tbd", "dir", "dir"}) + " " + r.Pick(wildDirs) + "/" + r.Pick(pats)
+			if len(present) > 0 && r.Chance(3, 4) {
+				l = r.Pick([]string{"file", "tbd", "dir", "dir", "tbd"}) + " " + patFor(r.Pick(present))
+			} else {
+				l = r.Pick([]string{"file", "tbd", "dir", "dir"}) + " " + r.Pick(wildDirs) + "/" + r.Pick(pats)
+			}
 		case x < 27: // omit a likely member
-			var cand []string
-			cand = append(cand, present...)
-			cand = append(cand, std...)
-			cand = append(cand, magic...)
-			if !in.EmptyDev {
-				cand = append(cand, dev...)
-				cand = append(cand, dev...)
+			if r.Chance(1, 12) {
+				l = "omit " + quoteName(r, pick(present, "/nonmember"))
+			} else {
+				l = "omit " + quoteName(r, r.Pick(members))
 			}
-			for _, p := range pkgs {
-				cand = append(cand, p.Dir()+"/CONTENTS", p.Dir())
-			}
-			l = "omit " + quoteName(r, r.Pick(cand))
 		case x < 34: // wildcard omit
+			if r.Chance(3, 4) {
+				l = "omit " + patFor(r.Pick(members))
+				break
+			}
 			wd := r.Pick(wildDirs)
 			if !in.EmptyDev && r.Bool() {
 				wd = r.Pick([]string{"/dev", "/dev/input"})
